@@ -167,6 +167,8 @@ func intVariants(rt *rapid.T, label string, v, other *big.Int) map[string]*big.I
 	out["swapped-with-other"] = new(big.Int).Set(other)
 	out["random"] = new(big.Int).SetBytes(rapid.SliceOfN(rapid.Byte(), 1, 33).Draw(rt, label+"rnd"))
 	out["shifted-by-8"] = new(big.Int).Lsh(v, 8)
+	out["negated"] = new(big.Int).Neg(v)
+	out["minus-one"] = bi(-1)
 	for k, x := range out {
 		if x.Cmp(v) == 0 {
 			delete(out, k)
@@ -279,6 +281,86 @@ func TestVF_C02(t *testing.T) {
 		if ctx.Cmp(nonce) != 0 {
 			if !mustReject("context+nonce", "both-swapped", js, pks, nonce, ctx, issig) {
 				return
+			}
+		}
+
+		// ---- one decoded list verified repeatedly under a sequence of tuples: every verdict must be
+		// the one a freshly decoded list gets (verification may cache derived data on the objects,
+		// but the session tuple and the keys are inputs of every call)
+		if !anyC11Ambiguous(pl) {
+			type tup struct {
+				name string
+				keys []*gabikeys.PublicKey
+				c, n *big.Int
+				sig  bool
+				want bool
+			}
+			clone := func(src *gabikeys.PublicKey, like *gabikeys.PublicKey) *gabikeys.PublicKey {
+				k := *src
+				k.R = append([]*big.Int{}, src.R...)
+				k.Issuer, k.Counter = like.Issuer, like.Counter // same key identifier as the right key
+				return &k
+			}
+			withKey0 := func(k *gabikeys.PublicKey) []*gabikeys.PublicKey {
+				ks := append([]*gabikeys.PublicKey{}, pks...)
+				ks[0] = k
+				return ks
+			}
+			var other *vfk.KeyPair
+			if big1024 {
+				other = getKey("k1024rev", (int(pks[0].Counter)-100+1)%3)
+			} else {
+				other = getKey("toyrev", (int(pks[0].Counter)+1)%8)
+			}
+			sChanged := clone(pks[0], pks[0])
+			sChanged.S = new(big.Int).Mod(new(big.Int).Mul(pks[0].S, pks[0].S), pks[0].N)
+			r0Changed := clone(pks[0], pks[0])
+			r0Changed.R[0] = new(big.Int).Mod(new(big.Int).Mul(pks[0].R[0], pks[0].S), pks[0].N)
+			cands := []tup{
+				{"original", pks, ctx, nonce, issig, true},
+				{"original-with-cloned-keys", withKey0(clone(pks[0], pks[0])), ctx, nonce, issig, true},
+				{"context+1", pks, new(big.Int).Add(ctx, bi(1)), nonce, issig, false},
+				{"nonce+1", pks, ctx, new(big.Int).Add(nonce, bi(1)), issig, false},
+				{"flag", pks, ctx, nonce, !issig, false},
+				{"key0=other-key-with-the-same-identifier", withKey0(clone(other.Pk, pks[0])), ctx, nonce, issig, false},
+				{"key0.S-changed", withKey0(sChanged), ctx, nonce, issig, false},
+				{"key0.R0-changed", withKey0(r0Changed), ctx, nonce, issig, false},
+			}
+			if ctx.Sign() != 0 {
+				cands = append(cands, tup{"context-negated", pks, new(big.Int).Neg(ctx), nonce, issig, false})
+			}
+			if nonce.Sign() != 0 {
+				cands = append(cands, tup{"nonce-negated", pks, ctx, new(big.Int).Neg(nonce), issig, false})
+			}
+			if n >= 2 && pks[0] != pks[1] {
+				sw := append([]*gabikeys.PublicKey{}, pks...)
+				sw[0], sw[1] = sw[1], sw[0]
+				cands = append(cands, tup{"keys-0-and-1-swapped", sw, ctx, nonce, issig, false})
+			}
+			l, err := decodeList(js)
+			if err != nil {
+				rt.Fatalf("decode: %v", err)
+			}
+			steps := rapid.SliceOfN(rapid.IntRange(0, len(cands)-1), 3, 6).Draw(rt, "sameObjectSteps")
+			hist := ""
+			for _, k := range steps {
+				c := cands[k]
+				hist += c.name + " -> "
+				var acc bool
+				psig := vfh.Guard(func() { acc = l.Verify(c.keys, c.c, c.n, c.sig, nil) })
+				rec.Case("same-object-sequence/"+c.name, true, "q|"+shape+"|"+hist)
+				if psig != "" {
+					rec.Fail(rt, psig+":same-object-sequence", det(hist))
+					return
+				}
+				if acc != c.want {
+					if c.want {
+						rec.Fail(rt, "original-tuple-rejected:after-earlier-verifications-of-the-same-object", det(hist))
+					} else {
+						rec.Fail(rt, "changed-tuple-accepted:after-earlier-verifications-of-the-same-object:"+c.name, det(hist))
+					}
+					return
+				}
 			}
 		}
 
